@@ -3,7 +3,7 @@ import json, os
 from core import ok, bad, unresolved, floor
 from anchors import AnchorError
 from facts import callee_of, op_local, op_place, op_const_val, last_seg, strip_generics, VERIF
-from util import calls_to_fn, calls_named, has_field, has_call, stores_to_field, aggregates_of
+from util import calls_to_fn, calls_named, has_field, has_call, stores_to_field, aggregates_of, macro_of, in_debug_assert
 import c12
 
 PINNED = os.path.join(VERIF, 'format_pinned.json')
@@ -140,7 +140,8 @@ def init_image(ctx):
 
 
 def snapshot(ctx):
-    return dict(layouts=current_layouts(ctx.facts), consts=current_consts(ctx.facts), recipes=current_recipes(ctx), init_image=init_image(ctx))
+    return dict(layouts=current_layouts(ctx.facts), consts=current_consts(ctx.facts), recipes=current_recipes(ctx), init_image=init_image(ctx),
+                open_refusals=count_open_refusals(ctx))
 
 
 def table_rules(ctx):
@@ -192,6 +193,143 @@ def table_rules(ctx):
         res.append(bad('C15.init-image', 'init_file | creation image differs', 'the constants stored by the creation function (%s) differ from the pinned creation image (%s)' % (cur['init_image'], pin['init_image'])))
     else:
         res.append(ok('C15.init-image', 'creation image constants equal the pinned ones: %s' % cur['init_image'], sites=1))
+    return res
+
+
+_PRIM_SIZE = {'u8': 1, 'i8': 1, 'bool': 1, 'u16': 2, 'i16': 2, 'u32': 4, 'i32': 4, 'u64': 8, 'i64': 8, 'usize': 8, 'isize': 8, 'u128': 16}
+
+
+def _size_of(F, ty):
+    ty = ty.strip()
+    if ty in _PRIM_SIZE:
+        return _PRIM_SIZE[ty]
+    a = F.adt(last_seg(ty)) if '<' not in ty else None
+    return a.get('size') if a else None
+
+
+def _pointee(ty):
+    for pre in ('*const ', '*mut ', '&mut ', '&'):
+        if ty.startswith(pre):
+            return ty[len(pre):]
+    return None
+
+
+def payload_offset(F, fn, du, operand, depth=0):
+    """byte distance between the pointer in `operand` and the function's first argument (self), when it is a compile-time constant: through copies, pointer casts,
+    `&(*p).a.b` (field offsets of repr(C) types) and `p.add(n)` / `p.byte_add(n)` with constant n.  None when it cannot be evaluated"""
+    off = 0
+    p = op_place(operand)
+    while p is not None and depth < 40:
+        depth += 1
+        if p['pr']:
+            return None
+        l = p['l']
+        if l == 1:
+            return off
+        ds = du.defs.get(l, [])
+        if len(ds) != 1:
+            return None
+        bb, si = ds[0]
+        if si is None:
+            t = fn.term(bb)
+            c = callee_of(t) if t['k'] == 'call' else None
+            nm = last_seg(strip_generics(c['path'])) if c else None
+            if nm in ('add', 'byte_add', 'offset', 'byte_offset', 'wrapping_add') and len(t['args']) == 2 and 'ptr' in c['path']:
+                n = op_const_val(t['args'][1])
+                q = op_place(t['args'][0])
+                if n is None or q is None:
+                    return None
+                sz = 1 if nm.startswith('byte_') else _size_of(F, _pointee(fn.locals[q['l']]['ty']) or '')
+                if sz is None:
+                    return None
+                off += n * sz
+                p = q
+                continue
+            if nm in ('cast', 'cast_const', 'cast_mut', 'as_ptr', 'as_mut_ptr', 'from_ref', 'from_mut', 'addr_of') and t['args']:
+                p = op_place(t['args'][0])
+                continue
+            return None
+        st = fn.blocks[bb]['stmts'][si]
+        if st['p']['pr']:
+            return None
+        rv = st['rv']
+        if rv['k'] == 'use':
+            p = op_place(rv['op'])
+        elif rv['k'] == 'cast' and rv.get('ck') in ('PtrToPtr', 'MutToConstPointer', 'Transmute', 'PointerCoercion'):
+            p = op_place(rv['op'])
+        elif rv['k'] in ('ref', 'rawptr'):
+            q = rv['p']
+            pr = list(q['pr'])
+            if not pr or pr[0]['k'] != 'deref':
+                return None
+            for e in pr[1:]:
+                if e['k'] != 'field' or not e.get('adt'):
+                    return None
+                a = F.adt(last_seg(e['adt']))
+                if not a or not a.get('repr_c'):
+                    return None
+                fo = a['variants'][0]['fields'][e['i']].get('offset')
+                if fo is None:
+                    return None
+                off += fo
+            p = dict(l=q['l'], pr=[])
+        else:
+            return None
+    return None
+
+
+def payload_origin(ctx, rule='C15.payload-origin'):
+    """every accessor of the page header that hands out the page's payload as another on-disk type (free-list ids, leaf / branch elements, the header structs) takes it from the
+    same place: the address of the header's last field, `ptr`.  The field offsets themselves are pinned by (layout); this pins the one offset that is not a field of any struct --
+    where the payload starts -- for readers and writers alike (they share the accessors, so the current code stays consistent with itself whatever the offset is)"""
+    res = []
+    F = ctx.facts
+    page = F.adt('Page')
+    if page is None:
+        return [unresolved(rule, 'Page')]
+    want = [f0.get('offset') for f0 in page['variants'][0]['fields'] if f0['name'] == 'ptr']
+    if not want or want[0] is None:
+        return [unresolved(rule, 'Page.ptr offset')]
+    want = want[0]
+    n = 0
+    for fn in sorted(F.fns, key=lambda g: g.path):
+        if not (fn.self_adt and last_seg(fn.self_adt) == 'Page') or fn.argc < 1 or not fn.locals[1]['ty'].replace('&mut ', '&').startswith('&page::Page'):
+            continue
+        out = fn.locals[0]['ty']
+        if not out.startswith('&') or 'page::Page' == out.replace('&mut ', '').replace('&', ''):
+            continue
+        fn = ctx.x(fn)        # a private `data_ptr()` helper shared by the accessors is part of each of them
+        du = ctx.du(fn)
+        ptrs = []
+        for bb in fn.reachable_blocks():
+            t = fn.term(bb)
+            c = callee_of(t) if t['k'] == 'call' else None
+            if c and last_seg(strip_generics(c['path'])) in ('from_raw_parts', 'from_raw_parts_mut') and t['args']:
+                ptrs.append((bb, t['args'][0]))
+        if not ptrs:
+            # `&*(p as *const T)`: the returned reference is a reborrow of a raw pointer
+            for bb in fn.reachable_blocks():
+                for si, st in enumerate(fn.blocks[bb]['stmts']):
+                    if st['k'] == 'assign' and st['rv']['k'] in ('ref',) and st['rv']['p']['pr'] and st['rv']['p']['pr'][0]['k'] == 'deref' \
+                            and str(st['rv']['p']['pr'][0].get('of', '')).startswith('*') and len(st['rv']['p']['pr']) == 1:
+                        ptrs.append((bb, dict(k='copy', p=dict(l=st['rv']['p']['l'], pr=[]))))
+        for bb, o in ptrs:
+            n += 1
+            off = payload_offset(F, fn, du, o)
+            if off == want:
+                res.append(ok(rule, '%s: payload taken at byte %d of the page (address of Page.ptr)' % (fn.qual, want), sites=1))
+            elif off is None:
+                res.append(bad(rule, '%s | payload address not a constant offset from the page header' % fn.qual,
+                               'the pointer that %s turns into `%s` at %s could not be evaluated to a constant distance from the page header; the pinned format puts the payload at '
+                               'byte %d (the address of Page.ptr)' % (fn.qual, out, fn.loc(bb), want), where=fn.loc(bb)))
+            else:
+                res.append(bad(rule, '%s | payload taken at byte %d, the pinned format has it at %d' % (fn.qual, off, want),
+                               '%s hands out the page payload as `%s` starting %d bytes after the page header (%s); in the pinned format it starts at byte %d, the address of '
+                               'Page.ptr: files written by earlier versions are read shifted, and files written now are not readable by them' % (fn.qual, out, off, fn.loc(bb), want),
+                               where=fn.loc(bb)))
+    f = floor(rule, 'payload accessors of Page', n, 7)
+    if f:
+        res.append(f)
     return res
 
 
@@ -357,13 +495,82 @@ def pagesize_refusal(ctx, rule='C15.pagesize-refusal'):
     return res
 
 
+def open_refusals(ctx, rule='C15.open-refusals'):
+    """the conditions on which opening a file is refused are those of the pinned release: counted over everything reachable from open (helpers included, wherever they are
+    moved), the explicit refusal sites -- `panic!` / `assert!` outside debug assertions, and constructions of a non-I/O value of the crate's error type -- do not grow.  A new
+    refusal narrows the set of files that open, which files written by the pinned release do not know about (a length that is no multiple of a non-power-of-two page size ...)"""
+    res = []
+    F = ctx.facts
+    try:
+        op, cm = ctx.need('OpenOptions::open', 'Tx::commit')
+    except AnchorError as e:
+        return [unresolved(rule, str(e))]
+    if not os.path.exists(PINNED):
+        return [unresolved(rule, 'format_pinned.json')]
+    pin = json.load(open(PINNED)).get('open_refusals')
+    cur = count_open_refusals(ctx)
+    if pin is None:
+        return [unresolved(rule, 'open_refusals in format_pinned.json')]
+    f = floor(rule, 'explicit refusal sites on the open path', cur['total'], 1)
+    if f:
+        res.append(f)
+    if cur['total'] > pin['total']:
+        new = [x for x in cur['sites'] if x not in pin['sites']]
+        res.append(bad(rule, '%s | more refusal sites than the pinned release (%d > %d)' % (op.qual, cur['total'], pin['total']),
+                       'opening a database can now be refused at %d explicit sites (%s), the pinned release has %d (%s); new: %s -- a file the pinned release wrote and would open '
+                       'may be rejected' % (cur['total'], _fmt_sites(cur['sites']), pin['total'], _fmt_sites(pin['sites']), _fmt_sites(new) or '(same kinds, more of them)'),
+                       where='%s:%d' % (op.file, op.line)))
+    else:
+        res.append(ok(rule, 'open refuses at %d explicit sites, the pinned release at %d' % (cur['total'], pin['total']), sites=cur['total']))
+    return res
+
+
+def _fmt_sites(sites):
+    return ', '.join('%s x%d' % (k, n) for k, n in sorted(sites.items())) if isinstance(sites, dict) else str(sites)
+
+
+def count_open_refusals(ctx):
+    F = ctx.facts
+    op = ctx.A.get('OpenOptions::open')
+    cm = ctx.A.get('Tx::commit')
+    sites = {}
+    if op is None:
+        return dict(total=0, sites={})
+    seen = set()
+    for g in F.reachable_fns([op]):
+        if g is cm:
+            continue
+        for bb in g.reachable_blocks():
+            t = g.term(bb)
+            key = None
+            c = callee_of(t) if t['k'] == 'call' else None
+            if c and c['path'].startswith(c12.PANIC_FNS):
+                ms = [m for m in macro_of(t.get('span', {})) if m in ('panic', 'assert', 'assert_eq', 'assert_ne', 'unreachable', 'todo', 'unimplemented')]
+                if ms and not in_debug_assert(t.get('span', {})):
+                    loc = (t['span'].get('file'), t['span'].get('line'))
+                    if loc in seen:
+                        continue
+                    seen.add(loc)
+                    key = 'panic in ' + g.qual
+            for st in g.blocks[bb]['stmts']:
+                if st['k'] == 'assign' and st['rv']['k'] == 'agg' and st['rv'].get('ak') == 'adt' and st['rv']['adt'].endswith('errors::Error') and st['rv']['variant'] not in ('Io', 'IO', 'IOError'):
+                    if not any(m in ('derive', 'Debug', 'PartialEq', 'Clone') for m in macro_of(st.get('span', {}))):
+                        k2 = 'Error::%s in %s' % (st['rv']['variant'], g.qual)
+                        sites[k2] = sites.get(k2, 0) + 1
+            if key:
+                sites[key] = sites.get(key, 0) + 1
+    return dict(total=sum(sites.values()), sites=sites)
+
+
 def run(ctx, tier):
     import c05
     results = []
     results += table_rules(ctx)
+    results += payload_origin(ctx)
     results += legacy_fallback(ctx)
     results += header_image(ctx)
     results += pagesize_refusal(ctx)
+    results += open_refusals(ctx)
     import c06
     for r in c06.open_existing(ctx, rule='C15.refusal-write-free'):
         results.append(r)
